@@ -77,6 +77,18 @@ def expectClient (c : Call) (e : Err) : HP Client :=
     | .client x => (HP.ok x).toProg
     | _ => (HP.fail e).toProg))
 
+/-- a lookup that must yield a live device authorization -/
+def expectDev (c : Call) (other : Res → Prog Err) : HP DevRec :=
+  HP.mk (Prog.call c (fun r => match r with
+    | .dev d => (HP.ok d).toProg
+    | r => (HP.failWith (other r)).toProg))
+
+/-- a lookup that must yield a pushed authorization request -/
+def expectPar (c : Call) (other : Res → Prog Err) : HP ParRec :=
+  HP.mk (Prog.call c (fun r => match r with
+    | .par p => (HP.ok p).toProg
+    | r => (HP.failWith (other r)).toProg))
+
 /-- a call whose result is inspected by the handler itself -/
 def callH (c : Call) : HP Res := HP.lift (call c)
 
